@@ -785,4 +785,51 @@ theorem a64In_init (id : Nat) (win : Bool) (ci : CallConvInfo) (used : Nat → N
     cleanup := by show (if ci.calleePops then _ else 0) = 0; rw [k16]; rfl
   }
 
+/-! ### non-vacuity: both end-to-end theorems apply to concrete frames and entry states -/
+
+/-- the hypotheses of `x86_prolog_body_epilog` are jointly satisfiable (SysV frame with dynamic alignment and
+a DA slot, entry stack of the monitor), so its conclusion holds there for every confined body -/
+example : ∃ s1, run .x64 (x86Prolog exFrame.finalize) (initState .x64 (0x40000000 - 8)) = some s1 ∧ s1.ret = none
+    ∧ bodyEntryOk exFrame.finalize (initState .x64 (0x40000000 - 8)) s1 = true
+    ∧ ∀ s2, BodyOK exFrame.finalize (0x40000000 - 8) s1 s2 →
+        ∃ s3, run .x64 (x86Epilog exFrame.finalize) s2 = some s3
+          ∧ exitOk exFrame.finalize (initState .x64 (0x40000000 - 8)) s3 = true := by
+  obtain ⟨s1, h1, h2, h3, _, h5⟩ := x86_prolog_body_epilog exFrame
+    ⟨⟨5, by decide, by decide⟩, ⟨4, by decide, by decide⟩, by decide, by decide⟩
+    (x86In_setters _ (x86In_init .x64 (Or.inr rfl) 0 false _ (tbl4 0xF008 0 0 0) 0 rfl) 100 32 40 0)
+    (initState .x64 (0x40000000 - 8)) (by decide) (by decide) (by decide)
+  refine ⟨s1, h1, h2, h3, fun s2 hb => ?_⟩
+  obtain ⟨s3, e1, e2, _⟩ := h5 s2 hb
+  exact ⟨s3, e1, e2⟩
+
+/-- an AAPCS64 frame: x19, x20, x21 and v8 dirty, preserved frame pointer, 5000 bytes of locals (two `sub`) -/
+def exA64 : Frame :=
+  let f := Frame.init ((initCallConv .a64 0 false).get (by decide)) (tbl4 0x380000 0x100 0 0) 0
+  ({ f with attrs := 0x10 }.setLocalSize 5000).setLocalAlign 16
+
+example : LayoutIn exA64 := ⟨⟨4, by decide, by decide⟩, ⟨3, by decide, by decide⟩, by decide, by decide⟩
+
+example : ∃ s1, run .a64 ((a64Prolog exA64.finalize).getD []) (initState .a64 0x40000000) = some s1 ∧ s1.ret = none
+    ∧ bodyEntryOk exA64.finalize (initState .a64 0x40000000) s1 = true
+    ∧ ∀ s2, BodyOK exA64.finalize 0x40000000 s1 s2 →
+        ∃ s3, run .a64 ((a64Epilog exA64.finalize).getD []) s2 = some s3
+          ∧ exitOk exA64.finalize (initState .a64 0x40000000) s3 = true := by
+  have hin : A64In exA64 := by
+    have h := a64In_init 0 false _ (tbl4 0x380000 0x100 0 0) 0 rfl
+    exact { arch := h.arch, sr0 := h.sr0, sr1 := h.sr1, sr23 := h.sr23, presSp := h.presSp, presFpLr := h.presFpLr,
+            pres23 := h.pres23, align := ⟨by decide, by decide, by decide⟩, sa := h.sa, cleanup := h.cleanup }
+  obtain ⟨s1, h1, h2, h3, _, h5⟩ := a64_prolog_body_epilog_partial exA64
+    ⟨⟨4, by decide, by decide⟩, ⟨3, by decide, by decide⟩, by decide, by decide⟩ hin
+    ((a64Prolog exA64.finalize).getD []) ((a64Epilog exA64.finalize).getD []) (by decide) (by decide)
+    (initState .a64 0x40000000) (by decide) (by decide) (by decide)
+  refine ⟨s1, h1, h2, h3, fun s2 hb => ?_⟩
+  obtain ⟨s3, e1, e2, _⟩ := h5 s2 hb
+  exact ⟨s3, e1, e2⟩
+
+/-- its prolog: FP/LR pair pre-indexed, `mov x29, sp` after it and after the first vector store, two `sub` -/
+example : a64Prolog exA64.finalize = some
+    [.stp 0 8 29 (some 30) 31 (-64) .pre, .mov 29 31, .stp 0 8 19 (some 20) 31 16 .fixed, .stp 0 8 21 none 31 32 .fixed,
+     .stp 1 8 8 none 31 48 .fixed, .mov 29 31, .sub 31 (912 : Nat), .sub 31 (4096 : Nat)] := by
+  decide
+
 end AsmjitVerif.Frame
